@@ -506,6 +506,8 @@ STRS_X = [
     # characters (NFC / NFKC), case, surrounding blanks, zero-width characters, CR/LF, numeric look-alikes
         "re\u0301sume\u0301.pdf", "\u212b\u2126 \uf900", "\ufb01le \u2460", "\u0130stanbul Stra\u00dfe \u01c5",
         "  padded  ", "zero\u200dwidth\u200b\ufeff", "MiXeD.Case.TXT", "cr\r\nlf\ttab", "+0049 (0)151 007", "\u0660\u0661\u0662"]
+# binary values past the sizes a "sanity limit" would pick (inline thumbnails, keys, sidecars are opaque bytes)
+BYTESS_X = [bytes(range(256)) * 257, b"\xff" * 65536, b"\x89PNG" + b"\x00" * 100000]
 EXTENDED = [True]     # the pinned probes (Gen/C10Probes.v) are drawn from the original pool only
 BYTESS = [b"", b"\x00", b"\xff\xd8\xff\xe0" + bytes(range(256)), bytes(range(32)), b"\x80\x81", b"0"]
 DOUBLES = [0.0, -0.0, 1.5, -122.084095, 37.421998, 1e300, 5e-324, -90.0]
@@ -520,7 +522,7 @@ def pool(k):
     if t[0] == "TStr":
         return STRS + STRS_X if EXTENDED[0] else STRS
     if t[0] == "TBytes":
-        return BYTESS
+        return BYTESS + BYTESS_X if EXTENDED[0] else BYTESS
     if t[0] == "TBool":
         return [False, True]
     if t[0] == "TInt":
